@@ -1,0 +1,43 @@
+// MIT License
+//
+// Copyright (c) 2022-2026 GoAkt Team
+//
+// Permission is hereby granted, free of charge, to any person obtaining a copy
+// of this software and associated documentation files (the "Software"), to deal
+// in the Software without restriction, including without limitation the rights
+// to use, copy, modify, merge, publish, distribute, sublicense, and/or sell
+// copies of the Software, and to permit persons to whom the Software is
+// furnished to do so, subject to the following conditions:
+//
+// The above copyright notice and this permission notice shall be included in all
+// copies or substantial portions of the Software.
+//
+// THE SOFTWARE IS PROVIDED "AS IS", WITHOUT WARRANTY OF ANY KIND, EXPRESS OR
+// IMPLIED, INCLUDING BUT NOT LIMITED TO THE WARRANTIES OF MERCHANTABILITY,
+// FITNESS FOR A PARTICULAR PURPOSE AND NONINFRINGEMENT. IN NO EVENT SHALL THE
+// AUTHORS OR COPYRIGHT HOLDERS BE LIABLE FOR ANY CLAIM, DAMAGES OR OTHER
+// LIABILITY, WHETHER IN AN ACTION OF CONTRACT, TORT OR OTHERWISE, ARISING FROM,
+// OUT OF OR IN CONNECTION WITH THE SOFTWARE OR THE USE OR OTHER DEALINGS IN THE
+// SOFTWARE.
+
+//go:build verif
+
+package cluster
+
+import (
+	"github.com/tochemey/olric"
+
+	"github.com/tochemey/goakt/v4/discovery"
+)
+
+// NewVerif returns a running cluster engine that talks to the supplied
+// distributed map and client instead of an embedded Olric server. Every registry
+// method of the returned value is the production code of this package; only the
+// storage underneath is replaced. Verification harness only.
+func NewVerif(name string, node *discovery.Node, dmap olric.DMap, client olric.Client, opts ...ConfigOption) Cluster {
+	c := New(name, nil, node, opts...).(*cluster)
+	c.dmap = dmap
+	c.client = client
+	c.running.Store(true)
+	return c
+}
